@@ -700,3 +700,5 @@ func (w *evWorker) buildMisbehaviour() {
 		})
 	}
 }
+
+func (w *evWorker) ProviderForTier2() *env.Provider { return w.p }
